@@ -20,19 +20,19 @@ CLAIMED = {
                 note=NOTE_STD, technique=T_STD, ref='DESIGN.md section 4, C05'),
     'C06': dict(text='Proof: a cycle is labelled iff it lies in a window of >= n consecutive qualifying interior cycles; ends never labelled; raising any threshold or n only removes labels (binary64 thresholds, arbitrary feature values incl. NaN/inf); rejections characterised. Correspondence: detect_bursts_cycles on synthetic tables with values one ulp around the thresholds, and compute_features routing of the thresholds the caller passed.',
                 note=NOTE_STD, technique=T_STD, ref='DESIGN.md section 4, C06'),
-    'C07': dict(text='Correspondence + partial proof: burst_fraction and is_burst of compute_features(burst_method="amp") are compared with the Coq model fed with the reference dual-threshold mask computed with the documented minimum-cycle count (burst options, else thresholds, else 3); label rule = window characterisation of the run filter (C08 theorems) and min-count consistency; the C07-specific theorem file is still being filled.',
+    'C07': dict(text='Proof: in the table returned by the model of compute_features(burst_method=\'amp\') burst_fraction of each cycle is the fraction of the detector mask over [last side, next side] INCLUSIVE (in [0,1], binary64), a cycle is labelled iff it lies in a run of >= n cycles whose fraction reaches the threshold, one min-cycle count (burst options, else thresholds, else 3) serves both consumers, and raising burst_fraction_threshold never adds a label. Correspondence: burst_fraction and is_burst of the real function vs the model fed with the reference dual-threshold mask computed with the documented count, over the option-routing grid on sparse-burst signals.',
                 note=NOTE_STD, technique=T_STD, ref='DESIGN.md section 4, C07'),
     'C08': dict(text='Proof: 10 axiom-free theorems about the run filter (window characterisation, whole-run keep/clear, no False->True, idempotence, edge neutrality, mirror symmetry, monotonicity) for all arrays and all min_n_cycles. Two models (one-pass and code-shaped) are tied to check_min_burst_cycles on every boolean array up to length 10 (13 thorough) x every min_n_cycles and on long random arrays.',
                 note=NOTE_STD + 'Non-boolean / non-ndarray inputs only checked to raise ValueError.', technique=T_STD, ref='DESIGN.md section 4, C08'),
-    'C09': dict(text='Correspondence + metamorphic search + partial proof: both centrings are compared cell by cell with the Coq pipeline model (in which trough centring IS peak centring of the negated signal followed by the rename), and compute_features(sig, trough) is compared with compute_features(-sig, peak) after the documented swap; mirror lemmas for amp_consistency / monotonicity / ratio symmetry are proved (Props/C05); the table-level mirror theorem is still being assembled.',
+    'C09': dict(text='Proof: compute_features Trough raw = map mirror (compute_features Peak (-raw)) as an exact list equality for both burst methods including errors: same cycles, same sample indices (rise/decay names swapped), extremum voltages negated, symmetries 1-x, identical burst features and labels. Correspondence: both centrings compared cell by cell with the model, and compute_features(sig, trough) vs compute_features(-sig, peak) compared directly after the documented swap.',
                 note=NOTE_STD + 'Assumes the reference filter is odd (checked on every generated signal).', technique=T_STD, ref='DESIGN.md section 4, C09'),
-    'C10': dict(text='Correspondence + metamorphic search + partial proof: the Coq pipeline model has no fs / f_range argument at all (they enter only through the reference kernels), the tables are compared cell by cell at 8 sampling rates, and power-of-two amplitude scaling and (c fs, c f_range) replays are compared exactly on the implementation; scaling theorems are still being added.',
+    'C10': dict(text='Partial proof + metamorphic search: fs / f_range are not arguments of any model function (every time feature is an integer number of samples); amplitude covariance of the WHOLE table is proved relative to a checkable per-input hypothesis (the scaling map commutes with the float operations on the values that occur: true for powers of two on examples, necessary - factor 3 changes a last bit -, rejects overflow / underflow / shifts). Correspondence at 8 sampling rates; exact replays with sig*2^k, k in [-100,100], and (c fs, c f_range).',
                 note=NOTE_STD + 'Binary64 exact scaling by powers of two and linearity of the reference filter are assumed.', technique=T_STD, ref='DESIGN.md section 4, C10'),
     'C11': dict(text='Proof: Pool.imap modelled as a reorder buffer returns map f xs for EVERY completion permutation; position i of the 2-D result is cf(options_i, row_i); models mirror positions; an unordered pool is refuted. Correspondence: real pools with injected delays (reverse / first-slow / zigzag), n_jobs from 1 to rows+3, progress on/off; every returned table matched against directly computed candidates.',
                 note=NOTE_STD + 'Partial: the multiprocessing runtime itself is trusted and only exercised under the injected schedules.', technique=T_STD, ref='DESIGN.md section 4, C11'),
     'C12': dict(text='Proof: for all shapes (n0, n1) and all completion orders, entry [i][j] is the analysis of signal [i,j] (axis=(0,1), row-major option list), row i the flattened-epoch analysis of sigs[i] (axis 0), column j that of sigs[:, j] (axis 1, via two transpositions); the pre-repair index i+j is refuted. Correspondence: compute_features_3d / BycycleGroup.fit on all shapes in {1,2,3}^2, three axis modes, shared / 1-D / 2-D lists.',
                 note=NOTE_STD, technique=T_STD, ref='DESIGN.md section 4, C12'),
-    'C13': dict(text='Correspondence + proof in progress: epoch_df and compute_features_2d(axis=None) are compared with the Coq model (half-open (kL,(k+1)L] assignment on the closing extremum, uniform shift, optional per-epoch re-labelling) on synthetic tables with closing indices on/around epoch boundaries, empty epochs, and on real signals with dict and per-epoch list options; partition theorems are being added.',
+    'C13': dict(text='Proof: ceil(len/L) epochs; a cycle belongs to exactly the epoch ceil(c/L)-1 of its closing extremum (a boundary index goes to the earlier epoch); epoch = filter + uniform shift with features, label and payload untouched; un-shifting and concatenating the epochs gives back the flattened table (no loss, no duplication, order); a single option set keeps the flattened labels; a per-epoch list re-labels each epoch independently; pre-repair relabelling refuted. Correspondence: epoch_df on synthetic tables with closing indices on / around boundaries and empty epochs; compute_features_2d(axis=None) with dict and per-epoch list options.',
                 note=NOTE_STD, technique=T_STD, ref='DESIGN.md section 4, C13'),
     'C19': dict(text='Proof: for all array extents, option-list shapes and axes the group entry points accept iff documented-valid; range checks accept exactly lo <= x <= hi (binary64); enumerated options, dimensionality guards; the pre-repair table is refuted. Correspondence: the decision function on the exhaustive grid, the public entry points on a sample (quick) or the whole grid (thorough), every scalar parameter at / inside / outside its range, every enumerated option.',
                 note=NOTE_STD, technique=T_STD, ref='DESIGN.md section 4, C19'),
